@@ -162,10 +162,18 @@ type srvCase struct {
 	Dir       string `json:"dir,omitempty"` // empty | one | 2*msize-bytes
 	NameLen   int    `json:"name_len,omitempty"`
 	Backend   string `json:"backend,omitempty"` // returns-all | honours-count
+	// First != 0: the session first negotiates this (larger) msize, binds and
+	// opens its fid, and then sends a SECOND Tversion with Msize; the fids stay
+	// bound and the limit in force is the one announced last.
+	First uint32 `json:"first_msize,omitempty"`
 }
 
 func (c srvCase) name() string {
-	return fmt.Sprintf("server-%s msize=%d count=%s size=%s dir=%s/%d/%s off=%d", c.Kind, c.Msize, c.CountName, c.SizeName, c.Dir, c.NameLen, c.Backend, c.Offset)
+	n := fmt.Sprintf("server-%s msize=%d count=%s size=%s dir=%s/%d/%s off=%d", c.Kind, c.Msize, c.CountName, c.SizeName, c.Dir, c.NameLen, c.Backend, c.Offset)
+	if c.First != 0 {
+		n += fmt.Sprintf(" renegotiated-from=%d", c.First)
+	}
+	return n
 }
 
 var direntCache = map[[2]int]p9.Dirents{}
@@ -254,6 +262,14 @@ func serverCases(thorough bool) []srvCase {
 			}
 		}
 	}
+	// a second, smaller Tversion while fids stay bound and open
+	for _, c := range counts(4096, thorough) {
+		out = append(out, srvCase{Kind: "tread-file", Msize: 4096, First: 65536, CountName: c.Name, Count: uint32(c.V), SizeName: "2*first", Size: 2 * 65536})
+		out = append(out, srvCase{Kind: "tread-xattr", Msize: 4096, First: 65536, CountName: c.Name, Count: uint32(c.V), SizeName: "first", Size: 65536})
+		for _, be := range []string{"returns-all", "honours-count"} {
+			out = append(out, srvCase{Kind: "treaddir", Msize: 4096, First: 65536, CountName: c.Name, Count: uint32(c.V), Dir: "2*msize-bytes", NameLen: 8, Backend: be})
+		}
+	}
 	return out
 }
 
@@ -315,7 +331,11 @@ func runServerCase(rep *fw.Report, cnt *counters, c srvCase) {
 			}
 			return true
 		}
-		ok := rpc(rawpeer.Tversion(rawpeer.NoTag, c.Msize, "9P2000.L.Google.7")) &&
+		first := c.Msize
+		if c.First != 0 {
+			first = c.First
+		}
+		ok := rpc(rawpeer.Tversion(rawpeer.NoTag, first, "9P2000.L.Google.7")) &&
 			rpc(rawpeer.Tattach(1, 1, "")) && rpc(rawpeer.Twalk(2, 1, 2, "f"))
 		switch {
 		case !ok:
@@ -329,6 +349,9 @@ func runServerCase(rep *fw.Report, cnt *counters, c srvCase) {
 		default:
 			ok = rpc(rawpeer.Tlopen(3, 2, 0))
 			request = rawpeer.Treaddir(9, fid, c.Offset, c.Count)
+		}
+		if ok && c.First != 0 {
+			ok = rpc(rawpeer.Tversion(rawpeer.NoTag, c.Msize, "9P2000.L.Google.7"))
 		}
 		if !ok {
 			return
@@ -670,7 +693,7 @@ func run(ctx *fw.Ctx, rep *fw.Report) {
 	rep.Rule = "complete grids, nothing sampled. SERVER (raw peer -> real p9.Server over memfs): msize M in " + msizeList(sc) +
 		" x count in {0,1,M-12,M-11,M-10,M-1,M,M+1,4MiB,4MiB+1,2^32-1" + map[bool]string{true: ",M-13,M-9,M-2,M+2,M+10..M+12,M/2,2M,4MiB-11,4MiB-10,2^31,2^32-2", false: ""}[thorough] +
 		"} x [Tread on an opened file: file size in {0,count-1,count,count+1,2M} (clamped to 8MiB+1; content is a shared patterned buffer)" + map[bool]string{true: " x offset {0,1}", false: ""}[thorough] +
-		" | Tread on an xattr fid: attribute size in {0,count,count+1,2M} (clamped to 4MiB, p9 refuses larger attributes) | Treaddir: directory {empty, 1 entry, entries worth 2M bytes} x name length {1,8,255} x backend {returns every entry, returns only what fits count}, entries synthesized through memfs.Hook]; oracle on every Rread/Rreaddir frame the server wrote. " +
+		" | Tread on an xattr fid: attribute size in {0,count,count+1,2M} (clamped to 4MiB, p9 refuses larger attributes) | Treaddir: directory {empty, 1 entry, entries worth 2M bytes} x name length {1,8,255} x backend {returns every entry, returns only what fits count}, entries synthesized through memfs.Hook]; plus the same requests after a SECOND Tversion that lowers the msize from 65536 to 4096 while the fid stays bound and open; oracle on every Rread/Rreaddir frame the server wrote. " +
 		"CLIENT (real p9.Client -> fake server): requested msize R in " + reqList(cc) + " (0 = default) x announced A in {256,4096,8192,65536,4MiB,R/2,R-1,R" + map[bool]string{true: ",512,4097,1MiB,R-11,R-23,R-512", false: ""}[thorough] +
 		"} with A<=R x [ReadAt len in {0,1,A-12,A-11,A-10,A,A+1,3(A-11),3A,Pc,Pc+1,3Pc} | WriteAt len in {0,1,A-24,A-23,A-22,A,A+1,3(A-23),3A,Pc,Pc+1,3Pc} | GetXattr of an attribute of size {0,1,A-12,A-11,A-10,A,A+1,3A,Pc,Pc+1,3Pc} | Readdir count {0,1,A-11,A,A+1,3A,2^32-1} x directory {empty,1,2A bytes}], Pc = roundDown512(A-largestFixedSize); oracle on every Tread/Twrite frame the client sent. Values that coincide are enumerated once; a case is distinct by its full tuple; distinct_nontrivial counts distinct (input class without the msize, observed outcome) pairs."
 	rep.Assumptions = append(rep.Assumptions,
